@@ -13,6 +13,10 @@ CLAIMS = {
   text="Theorems C17_merge_ok_sound, C17_merge_empty_sound, C17_mergeLists_sound, C17_nest_sound and C17_chain_sound (chains of any length) prove, for all admissible query lists and every media environment, that what the model of MediaQuery::merge / merge_media_queries / visit_media_rule emits is satisfied by exactly the environments satisfying all nested lists; the property's own exclusions are explicit hypotheses. Tie: all ordered pairs of single queries of the alphabet plus random lists and triples, grass's emitted @media structure = the model's; the truth-table predicate is evaluated by the Lean driver on grass's own output.",
   note="Known finding D22 (through-by-equality in chains of three) is modelled by a switch; theorems are about the specified variant, the correspondence runs against the as-found variant.",
   technique="Lean 4 theorems over a model of MediaQuery::merge / merge_media_queries / visit_media_rule; exhaustive-pairs correspondence; truth-table oracle on grass's output"),
+ "C19": dict(
+  text="Lean theorems about a hand-written model of Lexer span arithmetic (span_at_index/span_from/prev_span/current_span incl. re-lexed interpolated text), the codemap look-up, the Display renderer and logger routing over a mini statement language: every span obtainable from lexer calls, re-lexing to any depth, detached lexers, the empty span and merges lies inside the file on character boundaries and is located without panic (C19_span_in_bounds, C19_span_on_char_boundary, C19_location_valid, C19_reachable_span_located); the rendering starts with `Error: <message>` in both modes and its caret/padding arithmetic never underflows (C19_render_prefix, C19_render_total); each executed @debug/@warn is logged exactly once per execution in program order and nothing is logged under quiet (C19_debug_warn_trace, C19_warn_in_loop_each_iteration, C19_quiet_silent). Tie: exact-rendering tie (Display output = model render byte for byte on every located error, both modes), re-lexed-span tie, logger-trace tie on generated multi-file programs; direct location/renderer/fd-capture oracle on thousands of failing inputs.",
+  note="That every error site in grass only uses such reachable spans of one file is by reading and by the correspondence (C19_full comment), not a theorem. Trace theorems are about the mini language; event columns, multi-line directives, @each/@while/@use in logging programs are outside. As-found witnesses kept for D12, D19, D23.",
+  technique=TECH),
  "C09": dict(
   text="Lean theorems about an executable model of Value::eq / not_equals / SassMap / map literals / index(): == is reflexive (NaN-free), symmetric and transitive, != is its negation, map-get/has-key/remove/merge/literals and index() find an entry exactly when a key/element == the probe, maps keep first-insertion order and the distinct-key invariant — for every variant with canonical-unit comparison: on all values for the specified variant, on argument-list-free values with canonical convertible units for the code as it stands (the `_now_partial` theorems; the unguarded statement is refuted, C09_full_refuted). Tie: all ordered pairs of a ~120-value universe, all triples through grass's own == matrix, triples evaluated by grass, random map-operation sequences; the laws are evaluated by the Lean driver on grass's answers.",
   note="Exact rationals instead of f64 (universe kept away from bucket boundaries); complex units, calculations, function references outside the model. Known findings (same-unit vs canonical scale, arglist brackets/keywords, map-remove via not_equals) are modelled by switches and replayed every run.",
